@@ -600,13 +600,13 @@ func (e *Engine) visitInstr(fr *frame, instr ssa.Instruction) continuation {
 		default:
 			e.unsupported(fmt.Sprintf("IndexAddr of %T", x))
 		}
-		i := e.indexCheck(fr.get(instr.Index), len(cells))
+		i := e.indexCheck(e.idx64(fr.get(instr.Index), instr.Index.Type()), len(cells))
 		fr.set(instr, &cells[i])
 	case *ssa.Index:
 		x := fr.get(instr.X)
 		switch x := x.(type) {
 		case array:
-			idx := e.asInt(fr.get(instr.Index))
+			idx := e.idx64(fr.get(instr.Index), instr.Index.Type())
 			if idx.IsConst() {
 				i := e.indexCheck(idx, len(x))
 				fr.set(instr, copyVal(x[i]))
@@ -614,7 +614,7 @@ func (e *Engine) visitInstr(fr *frame, instr ssa.Instruction) continuation {
 				fr.set(instr, e.symIndex(idx, []value(x)))
 			}
 		case str:
-			idx := e.asInt(fr.get(instr.Index))
+			idx := e.idx64(fr.get(instr.Index), instr.Index.Type())
 			if idx.IsConst() {
 				i := e.indexCheck(idx, len(x.c))
 				fr.set(instr, x.c[i])
@@ -650,6 +650,19 @@ func (e *Engine) visitInstr(fr *frame, instr ssa.Instruction) continuation {
 		panic(fmt.Sprintf("unexpected instruction: %T", instr))
 	}
 	return kNext
+}
+
+// idx64 widens an index value to 64 bits according to its static type (sign- or zero-extension).
+func (e *Engine) idx64(v value, t types.Type) *Term {
+	x := e.asInt(v)
+	if x.W == 64 {
+		return x
+	}
+	_, signed, _ := typeWidth(t)
+	if signed {
+		return e.ts.SExt(x, 64)
+	}
+	return e.ts.ZExt(x, 64)
 }
 
 // indexCheck checks 0 <= idx < n (forking a panic path when symbolic) and returns a concrete index.
@@ -707,7 +720,7 @@ func (e *Engine) lookup(instr *ssa.Lookup, x, idx value) value {
 		return v
 	case str:
 		// string index via Lookup (s[i])
-		it := e.asInt(idx)
+		it := e.idx64(idx, instr.Index.Type())
 		if it.IsConst() {
 			return x.c[e.indexCheck(it, len(x.c))]
 		}
